@@ -230,6 +230,17 @@ func runC20(args []string) error {
 			}
 		}
 	}
+	// dense sweep of small random blocks under every style: rare alignments (a terminated or raw pass ending on 0xFF,
+	// a pass of zero length) strike a fraction of a percent of blocks
+	dense := 1000
+	if f.exh >= 2 {
+		dense = 6000
+	}
+	for style := 0; style < 64; style++ {
+		for k := 0; k < dense; k++ {
+			t1case(1+r.Intn(24), 1+r.Intn(24), r.Intn(4), style, 5+r.Intn(8), []string{"noise", "noise", "sparse"}[r.Intn(3)])
+		}
+	}
 	fmt.Printf("c20: scenarios=%d mq=%d dwt=%d t1=%d events=%d\n", scn, nmq, ndwt, nt1, t.n)
 	return nil
 }
